@@ -451,6 +451,16 @@ func cliCheck(res *sched.Result, w *cliWorld) (finds []explore.Finding, outcome 
 				if r.Inst == -2 && !errors.Is(r.Err, stun.ErrClientClosed) {
 					add("C15/start-after-close", "%s after Close returned %v; %s", r.Kind, r.Err, w.logString())
 				}
+				// a scenario thread's Indicate that began after Close had returned (possibly while a redundant second
+				// Close is running)
+				if r.Kind == "indicate-ret" && r.Inst == -1 && r.N > closeOK && !errors.Is(r.Err, stun.ErrClientClosed) {
+					add("C15/start-after-close", "Indicate that began (log position %d) after Close had returned (%d) returned %v; %s", r.N, closeOK, r.Err, w.logString())
+				}
+			}
+		}
+		for _, inst := range w.insts {
+			if inst.CallPos > closeOK && inst.Returned && !errors.Is(inst.RetErr, stun.ErrClientClosed) && (inst.Kind == "start" || inst.Kind == "do") {
+				add("C15/start-after-close", "%s(%c) that began (log position %d) after Close had returned (%d) returned %v; %s", inst.Kind, 'A'+inst.Slot, inst.CallPos, closeOK, inst.RetErr, w.logString())
 			}
 		}
 		wantCC := 1
